@@ -34,7 +34,9 @@ def _patches(props):
                 m = json.load(f)
             if m.get("selftest") == "skip":
                 continue   # kept for the record: judged not to break the property as documented (meta.json says why)
-            out.append((m.get("property", os.path.basename(d).split("-")[0]), patch, "seeded/" + os.path.basename(d), m.get("base", "HEAD")))
+            # meta.checked_by: the seed is detected by a neighbouring property's check (meta.caught_by says why)
+            out.append((m.get("checked_by") or m.get("property", os.path.basename(d).split("-")[0]), patch,
+                        "seeded/" + os.path.basename(d), m.get("base", "HEAD")))
     if props:
         out = [p for p in out if p[0] in props]
     return out
